@@ -540,9 +540,10 @@ thm("C01", ["C01"], ["C01_skinny128", "C01_skinny64"])
 thm("C03", ["C03", "C03M", "C07V"], ["C12_vec_unaligned_paths", "C07_vec128_block", "C07_vec256_block", "C07_vec64_block", "C03_skinny128", "C03_skinny64", "C03_tweaked128", "C03_tweaked64", "spec128_dec_enc", "spec128_enc_dec", "spec64_dec_enc", "spec64_enc_dec",
             "C03_mantis_spec", "C03_mantis_impl", "crypt_flip", "C02_swap_enc_is_dec"])
 thm("C04", ["C04"], ["C04_skinny128", "C04_skinny64"])
-VEC_INC = ["C05_v128c_increment", "C05_v256c_increment", "C05_v64c_increment", "C05_vmc_increment"]
-thm("C05", ["C05", "C06", "C05V"], ["C05_stream", "C05_init", "C05_involution", "C05_calls", "C05_C06_instances"] + VEC_INC)
-thm("C06", ["C06", "C05V"], ["C06_ctr", "C06_step", "C06_init", "C05_C06_instances"] + VEC_INC)
+VEC_INC = ["C05_v128c_increment", "C05_v256c_increment", "C05_v64c_increment", "C05_vmc_increment",
+           "C06_vec128_keystream", "C06_vec256_keystream", "C06_vec64_keystream"]
+thm("C05", ["C05", "C06", "C05V", "C06V"], ["C05_stream", "C05_init", "C05_involution", "C05_calls", "C05_C06_instances"] + VEC_INC)
+thm("C06", ["C06", "C05V", "C06V"], ["C06_ctr", "C06_step", "C06_init", "C05_C06_instances"] + VEC_INC)
 def search_c13(run, tier, rng):
     """a C13 theorem no longer checks: (1) the emulated-CPU matrix at full size against the real code;
     (2) the generated probe model against the architectural specification (covers XCR0, which cannot be emulated)"""
@@ -578,5 +579,5 @@ thm("C19", ["C19", "C19M", "C06"], ["C19_skinny128", "C19_skinny128_eq_C", "C19_
             "opsArd128_correct", "opsArd64_correct", "SkinnyVerif.Lemmas.mantisPieces_ard", "SkinnyVerif.Lemmas.mantisKeys_ard", "C05_stream"])
 thm("C20", ["C20"], ["C20_ctr_tool", "C20_ctr_tool_roundtrip", "C20_ecb_tool", "C20_increment_tweak", "C20_tweak_of_block", "C20_tweak_tool", "readChunks_flatten"])
 thm("C11", ["C11"], ["C11_skinny128", "C11_skinny64", "C11_tweaked128", "C11_no_junk_in_loaders"])
-thm("C12", ["C12", "C07V"], ["C12_skinny128", "C12_skinny64", "C12_tweaked128", "C12_tweaked64", "C12_vec_unaligned_paths"])
+thm("C12", ["C12", "C07V", "C06V"], ["C12_skinny128", "C12_skinny64", "C12_tweaked128", "C12_tweaked64", "C12_vec_unaligned_paths", "C06_vec128_keystream", "C06_vec256_keystream"])
 thm("C10", ["C10"], ["C10_skinny128_set_key", "C10_skinny64_set_key", "C10_null_key128", "C10_null_key64", "C10_mantis_set_key"])
